@@ -1,8 +1,11 @@
 #!/bin/sh
-# ./tools/runall.sh [quick|thorough]  — runs every registered check in sequence and prints one line each
+# ./tools/runall.sh [quick|thorough] [ids...]  — runs every registered check (or the given ones, in that order) in sequence and prints one line each
 cd "$(dirname "$0")/.."
 tier="${1:-quick}"
-for p in $(python3 -c "import json;print(' '.join(c['property_id'] for c in json.load(open('MANIFEST.json'))['checks']))"); do
+[ $# -gt 0 ] && shift
+ids="$*"
+[ -z "$ids" ] && ids=$(python3 -c "import json;print(' '.join(c['property_id'] for c in json.load(open('MANIFEST.json'))['checks']))")
+for p in $ids; do
   s=$(date +%s)
   ./check $p $tier > out/run_$p.log 2>&1
   rc=$?
